@@ -222,6 +222,17 @@ func newServer(prime map[string]string) *server {
 		s.apq.Add(context.Background(), h, t)
 	}
 	s.srv.Use(extension.AutomaticPersistedQuery{Cache: s.apq})
+	// a response middleware that writes directly into the extensions map of the response it
+	// got (instead of graphql.RegisterExtension): only for requests carrying the header
+	s.srv.AroundResponses(func(ctx context.Context, next graphql.ResponseHandler) *graphql.Response {
+		resp := next(ctx)
+		if resp != nil && resp.Extensions != nil && graphql.HasOperationContext(ctx) {
+			if h := graphql.GetOperationContext(ctx).Headers.Get("X-Verif"); h != "" {
+				resp.Extensions["seen"] = h
+			}
+		}
+		return resp
+	})
 	return s
 }
 
